@@ -55,6 +55,9 @@ func propC09(c *Ctx) string {
 	c.assertRule("C09/ASSERT", 4, "client", "client/future")
 	c09WaitGo(c, v, "C09")
 	c09WaitLock(c, v, "C09")
+	// one packet id identifies one outstanding flow and its future: the counter never hands out zero and never
+	// the same id twice in a row
+	c18Counter(c)
 	dieRule(c, v, "C09/DIE", "client", 8)
 	errchkRule(c, v, "C09/ERRCHK", "client", 20)
 	c09Future(c, v)
